@@ -58,6 +58,8 @@ def make_groups(kind, d):
         return [[d - 1]]
     if kind == "empty":
         return []
+    if kind == "one-group":
+        return [list(range(d))]
     if kind == "duplicate":
         return [[0, 0]]
     if kind == "out-of-range":
@@ -162,7 +164,7 @@ COUPLED = {
                                    {"metric_params": {"dict": {"squared": True}}, "metric": {"callable": "metric"}}],
 }
 # constructor arguments without an entry in _parameter_constraints (nothing is validated: every documented form is "accepted")
-UNCONSTRAINED = {"groups": [None, {"groups": "full"}, {"groups": "partial"}, {"groups": "single-last"}, {"groups": "empty"}]}
+UNCONSTRAINED = {"groups": [None, {"groups": "full"}, {"groups": "partial"}, {"groups": "single-last"}, {"groups": "empty"}, {"groups": "one-group"}]}
 SKIP_PARAMS = set()
 
 
@@ -339,6 +341,7 @@ def materialise(spec):
     kw = {k: resolve(v, d) for k, v in spec["params"].items()}
     cls = impl.ALL_ESTIMATORS[name]
     est = cls(**kw)
+    est._c04_snapshot = snapshot_params(est)
     ak = affinity_kind(est)
     if first is not None:
         XA = make_data(first)[0]
@@ -357,6 +360,33 @@ FAMILY = {"LinearModel": "lin", "LinearMMD": "lin", "LinearWasserstein": "lin", 
 
 
 # ---------------------------------------------------------------------------------------------- running one case
+def same_value(a, b):
+    """bit-for-bit / structural equality of an argument with the copy taken before the call"""
+    if isinstance(a, np.ndarray) or isinstance(b, np.ndarray):
+        return (isinstance(a, np.ndarray) and isinstance(b, np.ndarray) and a.dtype == b.dtype and a.shape == b.shape
+                and a.tobytes() == b.tobytes())
+    if isinstance(a, dict) and isinstance(b, dict):
+        return a.keys() == b.keys() and all(same_value(a[k], b[k]) for k in a)
+    if isinstance(a, (list, tuple)) and isinstance(b, (list, tuple)):
+        return type(a) is type(b) and len(a) == len(b) and all(same_value(x, y) for x, y in zip(a, b))
+    if isinstance(a, _GEMINI) and isinstance(b, _GEMINI):
+        return type(a) is type(b) and same_value({k: v for k, v in vars(a).items()}, {k: v for k, v in vars(b).items()})
+    try:
+        return bool(a == b) or (a != a and b != b)
+    except Exception:
+        return a is b
+
+
+def snapshot_params(est):
+    """copies of the mutable hyper-parameter objects (lists, dicts, arrays, GEMINI instances) of an unfitted estimator"""
+    return {k: copy.deepcopy(v) for k, v in est.get_params(deep=False).items() if isinstance(v, (list, dict, np.ndarray, _GEMINI))}
+
+
+def mutated_params(est, snap):
+    now = est.get_params(deep=False)
+    return [k for k, v in snap.items() if not same_value(now.get(k), v)]
+
+
 class _Timeout(Exception):
     pass
 
@@ -420,6 +450,8 @@ def run_spec(spec):
         est, X, y, (Xt, yt), (Xs, ys) = materialise(spec)
         as_list = spec["data"].get("as_list")
         Xin, Xtin, Xsin = [(a.tolist() if as_list else a) for a in (X, Xt, Xs)]
+        before = {"X": copy.deepcopy(Xin), "X_new": copy.deepcopy(Xtin), "X_same_n": copy.deepcopy(Xsin),
+                  "y": copy.deepcopy(y), "y_new": copy.deepcopy(yt), "y_same_n": copy.deepcopy(ys)}
         kauri = name == "Kauri"
         stage = "validate"
         try:
@@ -481,6 +513,10 @@ def run_spec(spec):
             stage = "fit_predict"
             with quiet():
                 obs["fit_predict"] = np.asarray(clone(est).fit_predict(Xin, y))
+        stage = "arguments"
+        after = {"X": Xin, "X_new": Xtin, "X_same_n": Xsin, "y": y, "y_new": yt, "y_same_n": ys}
+        obs["mutated"] = [k for k in before if not same_value(before[k], after[k])] + \
+                         ["hyper-parameter " + k for k in mutated_params(est, est._c04_snapshot)]
     except BaseException as e:  # noqa
         if isinstance(e, (KeyboardInterrupt, SystemExit)):
             raise
@@ -565,6 +601,8 @@ def oracle(spec, res, counters=None):
                 counters["score-nan"] += 1
         elif not close(sc, ref):
             bad.append(("score-gemini", f"score on {where} = {sc!r} but GEMINI(predict_proba, affinity) = {ref!r}"))
+    if o.get("mutated"):
+        bad.append(("arguments-mutated", f"fit / predict / score changed the caller's objects: {o['mutated']}"))
     if "fit_predict" in o and not np.array_equal(o["fit_predict"], lab):
         bad.append(("fit_predict", f"fit_predict of an identical clone returns {o['fit_predict'].tolist()}, labels_ = {lab.tolist()}"))
     return bad
@@ -1068,6 +1106,327 @@ def stream_softmax(chk, i, rng):
     chk.count(("softmax", K, scale, mode) if K >= 2 else None)
 
 
+# ---------------------------------------------------------------------------------------------- round-3 streams (in-process)
+REPRS = ["int64", "int32", "bool", "float32", "fortran", "strided-rows", "reversed-view", "transposed-transpose", "readonly", "list", "tuple"]
+
+
+def represent(a, kind):
+    """the same values in another representation (a is float64 C-contiguous); returns (object handed to the call, keep-alive base)"""
+    if a is None:
+        return None
+    if kind in ("int64", "int32", "float32"):
+        return a.astype(kind)
+    if kind == "bool":
+        return a.astype(bool)
+    if kind == "fortran":
+        return np.asfortranarray(a)
+    if kind == "strided-rows":
+        big = np.repeat(a, 2, axis=0)
+        big[1::2] += 100.0
+        return big[::2]
+    if kind == "reversed-view":
+        return np.ascontiguousarray(a[:, ::-1])[:, ::-1]
+    if kind == "transposed-transpose":
+        return np.ascontiguousarray(a.T).T
+    if kind == "readonly":
+        b = a.copy()
+        b.setflags(write=False)
+        return b
+    if kind == "list":
+        return a.tolist()
+    if kind == "tuple":
+        return tuple(tuple(r) for r in a.tolist())
+    raise ValueError(kind)
+
+
+def repr_data(rng, n, d, kind):
+    """exactly representable values: integers for the integer dtypes, 0/1 for bool, multiples of 1/8 otherwise"""
+    B = impl.blobs(rng, n, d, k=3)
+    if kind in ("int64", "int32"):
+        return np.round(B)
+    if kind == "bool":
+        X = (B > np.median(B, axis=0)).astype(float)
+        X[0, :] = 0.0
+        X[-1, :] = 1.0
+        return X
+    return np.round(B * 8) / 8
+
+
+def exact_affinity(kind, X):
+    """precomputed affinities whose entries are exactly representable in float32 as well"""
+    if kind == "kernel":
+        return X @ X.T
+    if kind == "metric":
+        return pairwise_distances(X, metric="cityblock")
+    return None
+
+
+def observe_api(est, X, y, kauri):
+    o = {}
+    with quiet():
+        if not kauri:
+            o["proba"] = np.asarray(est.predict_proba(X), dtype=float)
+        o["predict"] = np.asarray(est.predict(X))
+        o["score"] = float(est.score(X, y))
+    return o
+
+
+def compare_api(ref, got, tol_score, tol_proba=1e-12):
+    out = []
+    if "proba" in ref and (ref["proba"].shape != got["proba"].shape or np.abs(ref["proba"] - got["proba"]).max() > tol_proba):
+        out.append("predict_proba")
+    if not np.array_equal(ref["predict"], got["predict"]):
+        out.append("predict")
+    if not (abs(ref["score"] - got["score"]) <= tol_score * (1 + abs(ref["score"])) or (np.isnan(ref["score"]) and np.isnan(got["score"]))):
+        out.append(f"score ({ref['score']!r} vs {got['score']!r})")
+    return out
+
+
+REPR_CONFIGS = {   # per estimator: the configurations rotated through the representations
+    "generic": [{}, {"gemini": "kl_ova"}, {"gemini": {"gem": "MMDGEMINI", "kernel": "precomputed"}}, {"gemini": "wasserstein_ovo"},
+                {"gemini": {"gem": "WassersteinGEMINI", "metric": "precomputed"}}],
+    "kernel": [{}, {"kernel": "precomputed"}, {"kernel": "rbf", "ovo": True}],
+    "metric": [{}, {"metric": "precomputed"}, {"metric": "cityblock", "ovo": True}],
+    "base_kernel": [{}, {"base_kernel": "rbf"}],
+    "none": [{}],
+}
+
+
+def stream_repr(chk, i, rng):
+    """metamorphic: the same values as int64/int32/bool/float32/Fortran/views/read-only/list/tuple give the same fitted model,
+    the same predictions and score as the float64 C-contiguous reference, raise nothing new and leave the caller's objects unchanged"""
+    names = list(impl.ALL_ESTIMATORS)
+    name = names[i % len(names)]
+    kind = REPRS[(i // len(names)) % len(REPRS)]
+    ps = ctor_params(name)
+    fam = "generic" if "gemini" in ps else "kernel" if "kernel" in ps else "metric" if "metric" in ps else "base_kernel" if "base_kernel" in ps else "none"
+    cfgs = REPR_CONFIGS[fam]
+    ov = {k: v for k, v in cfgs[(i // (len(names) * len(REPRS)) + i // len(names)) % len(cfgs)].items() if k in ps}
+    if "batch_size" in ps:
+        ov["batch_size"] = [None, 3, 100][i % 3]
+    if "solver" in ps:
+        ov["solver"] = SOLVERS[(i // 2) % 2]
+    sp = make_spec(name, ov, data={"n": 7, "d": 2 if kind == "bool" else 3, "seed": int(rng.integers(0, 1000))})
+    n, d = sp["data"]["n"], sp["data"]["d"]
+    X = repr_data(rng, n, d, kind)
+    Q = repr_data(rng, n + 2, d, kind)             # query points (integral for the integer dtypes) for a model with fractional parameters
+    Xfrac = np.round(impl.blobs(rng, n, d, k=3) * 8) / 8 + 1 / 16
+    kw = {k: resolve(v, d) for k, v in sp["params"].items()}
+    cls = impl.ALL_ESTIMATORS[name]
+    kauri = name == "Kauri"
+    ref, var, frac = cls(**copy.deepcopy(kw)), cls(**copy.deepcopy(kw)), cls(**copy.deepcopy(kw))
+    ak = affinity_kind(ref)
+    y, yq, yfrac = exact_affinity(ak, X), exact_affinity(ak, Q), exact_affinity(ak, Xfrac)
+    Xv, yv, Qv, yqv = represent(X, kind), represent(y, kind if kind != "bool" else "fortran"), represent(Q, kind), represent(yq, kind if kind != "bool" else "fortran")
+    keep = [copy.deepcopy(v) for v in (Xv, yv, Qv, yqv)]
+    replay = {"estimator": name, "representation": kind, "params": {k: tok_str(v) for k, v in sp["params"].items()}, "n": n, "d": d}
+    key = f"repr:{name}:{kind}"
+    chk.dist["repr:" + kind] += 1
+    with quiet():
+        ref.fit(X, y)
+        frac.fit(Xfrac, yfrac)
+    R = observe_api(ref, X, y, kauri)
+    RQ = observe_api(ref, Q, yq, kauri) if name not in impl.NONPARAMETRIC else None
+    FQ = observe_api(frac, Q, yq, kauri) if name not in impl.NONPARAMETRIC else None
+    # the affinity inside score is computed from the raw float32 / in float32 by scikit-learn: float32 resolution there
+    tol = 1e-5 if kind == "float32" else 1e-9
+    # KernelRIM evaluates its base kernel on the data as given: scikit-learn computes it in float32 for float32 input
+    tp = 1e-5 if (kind == "float32" and name == "KernelRIM") else 1e-12
+    try:
+        with quiet():
+            var.fit(Xv, yv)
+        problems = []
+        if not np.array_equal(np.asarray(var.labels_), np.asarray(ref.labels_)):
+            problems.append("labels_")
+        problems += ["fit+" + w for w in compare_api(R, observe_api(var, Xv, yv, kauri), tol, tp)]
+        problems += ["ref-model(" + w + ")" for w in compare_api(R, observe_api(ref, Xv, yv, kauri), tol, tp)]
+        if RQ is not None:
+            problems += ["query:" + w for w in compare_api(RQ, observe_api(ref, Qv, yqv, kauri), tol, tp)]
+            problems += ["fractional-model-query:" + w for w in compare_api(FQ, observe_api(frac, Qv, yqv, kauri), tol, tp)]
+        with quiet():
+            fp_ref = np.asarray(cls(**copy.deepcopy(kw)).fit_predict(X, y))
+            fp_var = np.asarray(cls(**copy.deepcopy(kw)).fit_predict(Xv, yv))
+        if not np.array_equal(fp_ref, fp_var) or not np.array_equal(fp_ref, np.asarray(ref.labels_)):
+            problems.append("fit_predict")
+        if problems:
+            chk.fail(key + ":differs", f"{kind} input gives other results than the float64 C-contiguous reference: {problems[:5]}", replay, layer="L3")
+    except Exception as e:  # noqa
+        tb = traceback.extract_tb(e.__traceback__)
+        chk.fail(key + f":raises:{type(e).__name__}", f"{kind} input raises {type(e).__name__}: {str(e)[:160]} at {os.path.basename(tb[-1].filename)}:{tb[-1].lineno} although the reference call succeeds", replay, layer="L3")
+    changed = [nm for nm, b, a in zip(("X", "y", "X_query", "y_query"), keep, (Xv, yv, Qv, yqv)) if not same_value(b, a)]
+    if changed:
+        chk.fail(key + ":argument-changed", f"the caller's {changed} changed during fit / predict / score", replay, layer="L3")
+    chk.count(("repr", name, kind, json.dumps(replay["params"], sort_keys=True)))
+
+
+def adversarial_columns(rng, n):
+    """feature columns that stress every comparison of data with a stored number"""
+    base = rng.normal(size=n)
+    cols = {
+        "adjacent-doubles": np.where(np.arange(n) % 2 == 0, 0.3, 0.1 + 0.2),
+        "nextafter": np.array([np.nextafter(1.0, np.inf) if k % 3 == 0 else 1.0 if k % 3 == 1 else np.nextafter(1.0, -np.inf) for k in range(n)]),
+        "ties": np.round(base),
+        "signed-zero": np.where(np.arange(n) % 2 == 0, 0.0, -0.0) + np.where(np.arange(n) == n - 1, 1.0, 0.0),
+        "denormal": base * 5e-324 * 1e3,
+        "huge": np.where(np.arange(n) % 2 == 0, 1e300, -1e300) * (1 + np.arange(n) % 3),
+        "tiny-gap": 1.0 + np.arange(n) * 2.0 ** -52,
+    }
+    return cols
+
+
+def stream_extreme(chk, i, rng):
+    """degenerate and adversarial data through fit itself: Kauri's recorded thresholds must reproduce its own partition;
+    the gradient models stay coherent.  The affinity is a bounded one (rbf of a benign copy / precomputed) so that the
+    comparison logic, not overflow in a kernel (C17), is what is exercised."""
+    n = 8
+    cols = adversarial_columns(rng, n)
+    cname = list(cols)[i % len(cols)]
+    which = ["Kauri", "Kauri", "Douglas", "LinearMMD", "SparseMLPModel", "KernelRIM"][(i // len(cols)) % 6]
+    benign = impl.blobs(rng, n, 2, k=3)
+    X = np.column_stack([cols[cname], benign[:, 0]]) if (i // 3) % 2 == 0 else cols[cname].reshape(-1, 1)
+    Kmat = pairwise_kernels(benign, metric="rbf")
+    if which == "Kauri":
+        est = impl.Kauri(max_clusters=[2, 3, n][i % 3], kernel="precomputed", min_samples_leaf=1, random_state=0)
+        y = Kmat
+    elif which == "Douglas":
+        est = impl.Douglas(n_clusters=2, gemini=G.MMDGEMINI(kernel="precomputed"), max_iter=2, random_state=0, n_cuts=1 + i % 2)
+        y = Kmat
+    elif which == "LinearMMD":
+        est = impl.LinearMMD(n_clusters=2, kernel="precomputed", max_iter=2, random_state=0, batch_size=[None, n, n + 1][i % 3])
+        y = Kmat
+    elif which == "SparseMLPModel":
+        est = impl.SparseMLPModel(n_clusters=2, gemini=G.MMDGEMINI(kernel="precomputed"), max_iter=2, random_state=0, alpha=0, n_hidden_dim=2,
+                                  groups=[list(range(X.shape[1]))])
+        y = Kmat
+    else:
+        est = impl.KernelRIM(n_clusters=2, base_kernel=callable_bounded_kernel, max_iter=2, random_state=0)
+        y = None
+    replay = {"estimator": which, "column": cname, "X": [[float(v).hex() for v in r] for r in X], "params": {k: str(v)[:40] for k, v in est.get_params(deep=False).items()}}
+    key = f"extreme:{which}:{cname}"
+    chk.dist["extreme:" + cname] += 1
+    Xc, yc = X.copy(), None if y is None else y.copy()
+    huge = cname in ("huge",) and which != "Kauri"
+    try:
+        with quiet():
+            est.fit(X, y)
+            pred = np.asarray(est.predict(X))
+            sc = float(est.score(X, y))
+            P = None if which == "Kauri" else np.asarray(est.predict_proba(X))
+        K = est.max_clusters if which == "Kauri" else est.n_clusters
+        lab = np.asarray(est.labels_)
+        bad = []
+        if lab.shape != (n,) or lab.min() < 0 or lab.max() >= K:
+            bad.append("labels_ range")
+        if not np.array_equal(pred, lab):
+            bad.append(f"predict(X_train) {pred.tolist()} != labels_ {lab.tolist()}")
+        if P is not None:
+            if P.shape != (n, K) or not np.all(np.isfinite(P)) or P.min() < 0 or np.abs(P.sum(1) - 1).max() > TOL:
+                bad.append("predict_proba not probability vectors")
+            elif not np.array_equal(pred, P.argmax(1)):
+                bad.append("predict != argmax predict_proba")
+            g = est.get_gemini()
+            refs = float(np.asarray(g(P, g.compute_affinity(X, y))))
+            if not (close(sc, refs) or (np.isnan(sc) and np.isnan(refs))):
+                bad.append(f"score {sc} != gemini {refs}")
+        else:
+            if not close(sc, kauri_objective(pred, y)):
+                bad.append(f"score {sc} != objective of predict {kauri_objective(pred, y)}")
+            t = est.tree_
+            for node in range(t.n_nodes):        # every recorded threshold splits the samples that reach the node as fit did
+                if t.children_left[node] != -1 and not np.isfinite(t.thresholds[node]):
+                    bad.append("non-finite threshold")
+        if bad:
+            if huge:      # magnitudes whose products overflow inside the model's own arithmetic: C17's subject; observed, not failed here
+                chk.notes.append(f"observation (not failed): {which} on a feature of magnitude 1e300: {bad[:2]}")
+                chk.dist["extreme:observed-overflow"] += 1
+            else:
+                chk.fail(key + ":incoherent", f"{which} on a '{cname}' feature: {bad[:3]}", replay, layer="L3")
+    except Exception as e:  # noqa
+        tb = traceback.extract_tb(e.__traceback__)
+        msg = f"{which} on a '{cname}' feature raises {type(e).__name__}: {str(e)[:160]} at {os.path.basename(tb[-1].filename)}:{tb[-1].lineno}"
+        if huge:
+            chk.notes.append("observation (not failed): " + msg)
+            chk.dist["extreme:observed-overflow"] += 1
+        else:
+            chk.fail(key + f":raises:{type(e).__name__}", msg, replay, layer="L3")
+    if not same_value(Xc, X) or not same_value(yc, y):
+        chk.fail(key + ":argument-changed", "the caller's X / affinity changed", replay, layer="L3")
+    chk.count(("extreme", which, cname, X.shape[1], i % 3))
+
+
+def callable_bounded_kernel(X, Y=None):
+    X = np.asarray(X, dtype=float)
+    Y = X if Y is None else np.asarray(Y, dtype=float)
+    return np.cos(np.arctan(X[:, -1:]) - np.arctan(Y[:, -1:]).T)
+
+
+def stream_path(chk, i, rng):
+    """path() has its own training loop: the model it leaves must satisfy the same relations (except the documented
+    switch to SGD), with every batch size class, precomputed affinities, group structures and dynamic mode; arguments unchanged"""
+    name = impl.SPARSE[i % len(impl.SPARSE)]
+    ps = ctor_params(name)
+    n, d = 9, 4
+    X = np.round(impl.blobs(rng, n, d, k=3), 3)
+    bs = [None, n, n + 1, 4, 1][(i // len(impl.SPARSE)) % 5]
+    mode = ["plain", "precomputed", "groups", "dynamic"][(i // 2) % 4]
+    kw = dict(n_clusters=2, max_iter=2, random_state=0, batch_size=bs, alpha=[0.5, 1e-3][i % 2], solver=SOLVERS[i % 2])
+    if "n_hidden_dim" in ps:
+        kw["n_hidden_dim"] = 3
+    y = None
+    groups = None
+    if mode == "precomputed":
+        if "kernel" in ps:
+            kw["kernel"], y = "precomputed", X @ X.T
+        elif "gemini" in ps:
+            kw["gemini"], y = G.MMDGEMINI(kernel="precomputed"), X @ X.T
+    if mode == "groups":
+        groups = [[1, 0]]
+        kw["groups"] = groups
+    if mode == "dynamic" and "dynamic" in ps:
+        kw["dynamic"] = True
+    est = impl.ALL_ESTIMATORS[name](**kw)
+    replay = {"estimator": name, "batch_size": bs, "mode": mode, "alpha": kw["alpha"], "solver": kw["solver"], "seed_case": i}
+    key = f"path:{name}:{mode}"
+    chk.dist["path:" + mode] += 1
+    chk.dist["path:batch=" + ("None" if bs is None else "n" if bs == n else ">n" if bs > n else "<n")] += 1
+    Xc, yc, gc = X.copy(), None if y is None else y.copy(), copy.deepcopy(groups)
+    snap = snapshot_params(est)
+    try:
+        with quiet():
+            res = est.path(X, y, alpha_multiplier=3.0, min_features=2, max_patience=2)
+            P = np.asarray(est.predict_proba(X))
+            pred = np.asarray(est.predict(X))
+            sc = float(est.score(X, y))
+            g = est.get_gemini()
+            refs = float(np.asarray(g(P, g.compute_affinity(X, y))))
+        bad = []
+        if not (isinstance(res, tuple) and len(res) == 5 and len({len(res[k]) for k in (1, 2, 3, 4)}) == 1):
+            bad.append("path result is not (weights, 4 histories of equal length)")
+        if P.shape != (n, 2) or not np.all(np.isfinite(P)) or P.min() < 0 or np.abs(P.sum(1) - 1).max() > TOL:
+            bad.append("predict_proba not probability vectors")
+        elif not np.array_equal(pred, P.argmax(1)):
+            bad.append("predict != argmax predict_proba")
+        if not (close(sc, refs) or (np.isnan(sc) and np.isnan(refs))):
+            bad.append(f"score {sc} != gemini {refs}")
+        lab = np.asarray(est.labels_)
+        if lab.shape != (n,) or lab.min() < 0 or lab.max() >= 2:
+            bad.append("labels_ range")
+        if est.n_iter_ != 2:
+            bad.append(f"n_iter_ {est.n_iter_}")
+        if bad:
+            chk.fail(key + ":incoherent", f"after path(): {bad[:3]}", replay, layer="L3")
+        if not np.array_equal(pred, lab):      # path() retrains after the labelling pass of its initial fit: labels_ describe the alpha=0 model
+            chk.dist["path:labels_-stale-after-path"] += 1
+    except Exception as e:  # noqa
+        tb = traceback.extract_tb(e.__traceback__)
+        chk.fail(key + f":raises:{type(e).__name__}", f"path() raises {type(e).__name__}: {str(e)[:160]} at {os.path.basename(tb[-1].filename)}:{tb[-1].lineno}", replay, layer="L3")
+    changed = [nm for nm, b, a in (("X", Xc, X), ("y", yc, y), ("groups", gc, groups)) if not same_value(b, a)] + mutated_params(est, snap)
+    if changed:
+        chk.fail(key + ":argument-changed", f"path() changed the caller's objects / hyper-parameters: {changed}", replay, layer="L3")
+    chk.traces += 1
+    chk.count(("path", name, bs, mode, i % 2))
+
+
 # ---------------------------------------------------------------------------------------------- main
 def main():
     chk = Check("C04")
@@ -1096,6 +1455,14 @@ def main():
                 ("refit", specs_refit(chk, (1 if quick else 4) * widen, notes)),
                 ("grid", specs_grid(chk, notes, sample=(400 * widen if quick else None)))]
         chk.run_stream("softmax", stream_softmax, 300 if quick else 5000)
+        for nm, fn, cnt in (("repr", stream_repr, 198 if quick else 990), ("extreme", stream_extreme, 84 if quick else 420), ("path", stream_path, 40 if quick else 200)):
+            t0 = time.time()
+            chk.run_stream(nm, fn, cnt * widen)
+            chk.notes.append(f"stream {nm}: {cnt * widen} cases in {time.time() - t0:.1f}s")
+        stale = chk.dist.get("path:labels_-stale-after-path", 0)
+        if stale:
+            chk.notes.append(f"observation (not failed, reported): after path() predict(X_train) != labels_ in {stale} of {chk.dist.get('path:plain', 0) + chk.dist.get('path:precomputed', 0) + chk.dist.get('path:groups', 0) + chk.dist.get('path:dynamic', 0)} runs: "
+                             "labels_ is written by the initial alpha=0 fit inside path() and not refreshed after the path's own training loop")
     sizes = {}
     CHUNK = 3000                      # results carry small arrays: evaluate and drop them chunk by chunk
     for stream, specs in plan:
